@@ -24,14 +24,15 @@ type vhDoc struct {
 
 type vhStore struct {
 	base.DataStore
-	docs       map[string]*vhDoc
-	casCtr     uint64
-	faults     bool
-	interfere  bool
-	okWrites   int
-	failedOps  int
-	deletes    int
-	interfered int
+	docs         map[string]*vhDoc
+	casCtr       uint64
+	faults       bool
+	interfere    bool
+	okWrites     int
+	failedOps    int
+	deletes      int
+	interfered   int
+	interfereMax int // 0 = unbounded
 }
 
 func vhNewStore(faults, interfere bool) *vhStore {
@@ -61,7 +62,7 @@ func vhSnapshot(v any) any {
 
 // otherNode models a concurrent writer: it may rewrite the stored principal between two of our operations.
 func (s *vhStore) otherNode(k string) {
-	if !s.interfere {
+	if !s.interfere || (s.interfereMax > 0 && s.interfered >= s.interfereMax) {
 		return
 	}
 	d, ok := s.docs[k]
@@ -204,4 +205,68 @@ func vhNewAuth(s *vhStore) *Authenticator {
 			Collections: map[string]map[string]struct{}{base.DefaultScope: {base.DefaultCollection: struct{}{}}},
 		},
 	}
+}
+
+func vhStoredRole(s *vhStore, docID string) *roleImpl {
+	d, ok := s.docs[docID]
+	if !ok {
+		return nil
+	}
+	r, _ := d.v.(*roleImpl)
+	return r
+}
+
+// ---- exported helpers for harnesses in other packages (db)
+
+// VhNewAuthenticatorWithRole builds an authenticator over a fault-symbolic store holding role "r1".
+func VhNewAuthenticatorWithRole(faults, interfere bool, interfereMax int) *Authenticator {
+	s := vhNewStore(faults, interfere)
+	s.interfereMax = interfereMax
+	a := vhNewAuth(s)
+	role := &roleImpl{Name_: "r1", docID: a.DocIDForRole("r1"), Sequence_: 1, ExplicitChannels_: nil}
+	role.cas = s.nextCas()
+	stored := *role
+	s.docs[role.docID] = &vhDoc{v: &stored, cas: role.cas}
+	return a
+}
+
+// VhNewAuthenticatorWithUser builds an authenticator over a fault-symbolic store holding user "u1" (with an email
+// address, so that Save also writes the email index after the principal document).
+func VhNewAuthenticatorWithUser(faults, interfere bool, interfereMax int) *Authenticator {
+	s := vhNewStore(faults, interfere)
+	s.interfereMax = interfereMax
+	a := vhNewAuth(s)
+	u := &userImpl{roleImpl: roleImpl{Name_: "u1", docID: a.DocIDForUser("u1"), Sequence_: 1}, userImplBody: userImplBody{Email_: "u1@example.com"}}
+	u.cas = s.nextCas()
+	stored := *u
+	s.docs[u.docID] = &vhDoc{v: &stored, cas: u.cas}
+	return a
+}
+
+// VhStoredUserSequence returns the sequence of the stored user "u1" and the store's counters.
+func VhStoredUserSequence(a *Authenticator) (seq uint64, okWrites, failedOps int) {
+	s := a.datastore.(*vhStore)
+	if d, ok := s.docs[a.DocIDForUser("u1")]; ok {
+		if u, ok := d.v.(*userImpl); ok {
+			seq = u.Sequence_
+		}
+	}
+	return seq, s.okWrites, s.failedOps
+}
+
+// VhValidEmail replaces IsValidEmail (a regular expression match) in the engine.
+func VhValidEmail(email string) bool { return true }
+
+// VhStoredRoleSequence returns the sequence of the stored role "r1" and the store's counters.
+func VhStoredRoleSequence(a *Authenticator) (seq uint64, okWrites, failedOps int) {
+	s := a.datastore.(*vhStore)
+	if r := vhStoredRole(s, a.DocIDForRole("r1")); r != nil {
+		seq = r.Sequence_
+	}
+	return seq, s.okWrites, s.failedOps
+}
+
+// VhGetPrincipal is the cross-package name of the getPrincipal replacement.
+func VhGetPrincipal(auth *Authenticator, docID string, factory func() Principal) (Principal, error) {
+	return vhGetPrincipal(auth, docID, factory)
 }
